@@ -82,8 +82,9 @@ def rules(ctx, tier):
     txns = txn_type(ctx)
     if len(txns) == 1:
         borrow, consume, ctor = txn_methods(ctx, txns[0])
+        wkeys = set(e.site.key() for e in ctx.fx.effects if e.kind == "FS_WRITE")
         for b in borrow:
-            if any(e.kind == "FS_WRITE" and e.site.body.path == b.path for e in ctx.fx.effects):
+            if any(s.key() in wkeys for s in ctx.flat(b).sites(("call",))):
                 c18.one_datum(ctx, r, must, b, txns[0])
     r.need(5, "flow of size/hash/key + one datum")
     out.append(r.finish())
